@@ -740,6 +740,9 @@ class Interp:
                 if got is not None:
                     return dedupe(got)
             v = self.domain.load_attr(["<comprehension>", e], st, fr)
+            if v is None and getattr(self.domain, "strict_calls", False) and any(isinstance(n_, ast.Call) for n_ in ast.walk(e)):
+                # (its element expression calls things: giving up on it silently would lose what those calls do)
+                raise Undecided(f"the comprehension at line {getattr(e, 'lineno', '?')} of {fr.name} iterates something the analysis cannot enumerate")
             return [val(TOP if v is None else v, st)]
         if isinstance(e, ast.NamedExpr):
             out = []
@@ -1799,8 +1802,10 @@ class Interp:
                         else:
                             raise Undecided(f"the comprehension at line {comp.lineno} of {fr.name} does not end within the analysis budget")
                         continue
-                    exact = self._exact_elements(r.value)
+                    exact = self._exact_elements(unbox(r.value, r.state))   # (a list some object holds: the elements it has now)
                     if exact is None:
+                        if os.environ.get("TTSA_TRACE_COMP"):
+                            print("COMP-NOT-EXACT", fr.name, norm(gen.iter)[:60], str(r.value)[:200])
                         return None
                     cur = [(r.state, acc)]
                     for elv in exact:
